@@ -190,6 +190,8 @@ def mon_c09(ops, obs, eng):
     out = []
     P = eng.params
     tick, deadline, launched, cleared_once, failed = 0, 0, False, False, False
+    unsure = False        # a report arrived while a deadline was pending and no context lookup has been seen since
+    fresh = False         # the next context lookup still shows the view and the definitions as they were at the last report
     defs = {}
     bootstrapped = False
     view = None
@@ -204,6 +206,8 @@ def mon_c09(ops, obs, eng):
             continue
         if op[0] == "T":
             tick += P[1]
+            if unsure and deadline > 0 and tick > deadline:
+                break            # the monitor cannot tell whether that report completed the launch: judge nothing further
             if deadline > 0 and tick > deadline:
                 failed = True
                 if not panicked(r):
@@ -217,6 +221,7 @@ def mon_c09(ops, obs, eng):
                 break
             if val(r) == 0:
                 defs[op[2]] = list(op[4])
+                fresh = False    # the deadline is decided at report time, with the definitions of that moment
         elif op[0] == "K":
             if panicked(r):
                 break
@@ -247,9 +252,13 @@ def mon_c09(ops, obs, eng):
             if panicked(r):
                 break
             view = None
+            unsure = deadline > 0
+            fresh = True
         elif op[0] == "LC" and not panicked(r):
             c = ctx_struct(r)
-            if deadline > 0 and c is not None:
+            if c is not None and fresh:
+                unsure = False
+            if deadline > 0 and c is not None and fresh:
                 full = all(s in c["view"] and all(n["tick"] > 0 for n in c["view"][s]["reps"].values()) for s in c["shards"])
                 if full:
                     deadline, cleared_once = 0, True
@@ -259,6 +268,24 @@ def mon_c09(ops, obs, eng):
 
 
 # ------------------------------------------------------------------ C04 / C05 / C11 (view part)
+def _hist_absorb(hist, raddr, infos):
+    """C04: fold the complete entries of one report into the membership history seen so far; False as soon as
+    the reports are NOT consistent with one linear history (same version / different members, an address used
+    twice within a version, a replica id changing its address) - hypotheses of C04_no_panic"""
+    ok = True
+    for ci in infos:
+        if ci["pending"] or ci["incomplete"]:
+            continue
+        mem = dict(ci["members"])
+        key = (ci["shard"], ci["cci"])
+        if hist.setdefault(key, mem) != mem or len(set(mem.values())) != len(mem):
+            ok = False
+        for rid, a in mem.items():
+            if raddr.setdefault((ci["shard"], rid), a) != a:
+                ok = False
+    return ok
+
+
 def mon_view(ops, obs, eng, check=("c04", "c05", "c11")):
     out = []
     P = eng.params
@@ -267,10 +294,17 @@ def mon_view(ops, obs, eng, check=("c04", "c05", "c11")):
     best = {}        # shard -> (version, members) of the newest complete non-pending entry processed
     prev = None
     strays_reported = set()
+    since = []       # C04: (tick, report) of the reports processed since the previous context lookup
+    hist, raddr, consistent = {}, {}, True     # C04: membership history reconstructed from the reports, see _hist_absorb
     for oi, op in enumerate(ops):
         r = obs.get(oi)
         if r is None:
             continue
+        if "c04" in check and op[0] == "R":
+            consistent = _hist_absorb(hist, raddr, op[1]["infos"]) and consistent
+            if panicked(r) and consistent:
+                out.append((oi, "a report consistent with the membership history reported so far made the DB panic: %s" % (r or "")[:120]))
+                break
         if op[0] in CMD and panicked(r):
             break
         if op[0] == "T":
@@ -278,6 +312,7 @@ def mon_view(ops, obs, eng, check=("c04", "c05", "c11")):
             if "c05" in check and val(r) != tick:
                 out.append((oi, "tick command returned %s, logical time must be %d" % (val(r), tick)))
         elif op[0] == "R":
+            since.append((tick, op[1]))
             for ci in op[1]["infos"]:
                 if not ci["pending"] and not ci["incomplete"]:
                     b = best.get(ci["shard"])
@@ -310,6 +345,27 @@ def mon_view(ops, obs, eng, check=("c04", "c05", "c11")):
                         for rid, n in sv["reps"].items():
                             if rid in pv["reps"] and pv["reps"][rid]["first"] != n["first"]:
                                 out.append((oi, "first-seen time of member %d of shard %d changed %d -> %d" % (rid, s, pv["reps"][rid]["first"], n["first"])))
+                # a member that was not a member at the previous lookup is stamped with the logical time of a report processed since
+                rticks = set(t for (t, _) in since)
+                for s, sv in c["view"].items():
+                    pv = prev["view"].get(s) if prev is not None else None
+                    for rid, n in sv["reps"].items():
+                        if (pv is None or rid not in pv["reps"]) and n["first"] not in rticks:
+                            out.append((oi, "new member %d of shard %d has first-seen time %d, the reports since the previous lookup were processed at time(s) %s" % (
+                                rid, s, n["first"], sorted(rticks))))
+                # if every entry for a shard since the previous lookup (whatever its flags) carries a version below the view's,
+                # nothing but report times may change: members, addresses, first-seen times, leader flags
+                if prev is not None:
+                    for s, pv in prev["view"].items():
+                        ents = [ci for (_, rep) in since for ci in rep["infos"] if ci["shard"] == s]
+                        if all(ci["cci"] < pv["cci"] for ci in ents):
+                            sv = c["view"].get(s)
+                            core = lambda x: (x["cci"], {k: (n["addr"], n["first"], n["leader"]) for k, n in x["reps"].items()})
+                            if sv is None or core(sv) != core(pv):
+                                lead = lambda x: sorted(k for k, n in x["reps"].items() if n["leader"])
+                                out.append((oi, "only entries with versions below v%d were reported for shard %d, yet its record changed: leaders %s -> %s, version %d -> %s" % (
+                                    pv["cci"], s, lead(pv), lead(sv) if sv else None, pv["cci"], sv["cci"] if sv else None)))
+                since = []
             if "c05" in check:
                 if c["tick"] != tick:
                     out.append((oi, "logical time is %d, expected %d after the ticks so far" % (c["tick"], tick)))
